@@ -96,6 +96,9 @@ impl AssemblyWindow {
                     // Never should have come here!
                     self.window[idx] = WindowEntry::Closed(0);
 
+                    #[cfg(uflow_verif)]
+                    crate::verif::trace::emit(crate::verif::trace::Event::RxOverAlloc { sequence_id: datagram.sequence_id, alloc_size });
+
                     return Some(Packet {
                         channel_id: datagram.channel_id,
                         sequence_id: datagram.sequence_id,
